@@ -3,7 +3,7 @@ import json
 import pickle
 import warnings
 from collections import Counter
-from copy import deepcopy
+from copy import copy, deepcopy
 from dataclasses import asdict, dataclass, field
 from itertools import chain
 from pathlib import Path
@@ -1069,15 +1069,20 @@ class BaseDAGExecution(Generic[P, RVDAG]):
                 to_cache_results = results
             pickle.dump(to_cache_results, f, protocol=pickle.HIGHEST_PROTOCOL, fix_imports=False)
 
-    def _pre_call(self) -> None:
+    def _pre_call(self) -> StrictDict[Identifier, Any]:
+        """Checks that the execution is still possible and returns the results it starts from."""
         if self.executed:
             raise TawaziUsageError("DAGExecution object has already been executed.")
 
+        results = self.results
         if self.from_cache:
             with open(self.from_cache, "rb") as f:
                 cached_results = pickle.load(f)  # noqa: S301
-            for node in self.cached_nodes:
-                self.results = cached_results[node.id]
+            # the cached results are considered already computed: the scheduler will not run them again
+            results = copy(results)
+            for id_, result in cached_results.items():
+                results.force_set(id_, result)
+        return results
 
     def _post_call(self) -> RVDAG:
         # mark as executed. Important for the next step
@@ -1117,13 +1122,13 @@ class DAGExecution(BaseDAGExecution[P, RVDAG]):
         Returns:
             RVDAG: the return value of the DAG's Execution
         """
-        self._pre_call()
+        results = self._pre_call()
 
         # 2. Execute the scheduler
         # the scheduler consumes the graph it is given: run on a copy so that a run that fails
         # leaves this DAGExecution with its complete selection
         self.xn_dict, self.results, self.profiles = self.dag.run_subgraph(
-            deepcopy(self.graph), self.results, *args
+            deepcopy(self.graph), results, *args
         )
 
         return self._post_call()
@@ -1154,11 +1159,11 @@ class AsyncDAGExecution(BaseDAGExecution[P, RVDAG]):
         Returns:
             RVDAG: the return value of the DAG's Execution
         """
-        self._pre_call()
+        results = self._pre_call()
 
         # 2. Execute the scheduler
         self.xn_dict, self.results, self.profiles = await self.dag.run_subgraph(
-            deepcopy(self.graph), self.results, *args
+            deepcopy(self.graph), results, *args
         )
 
         return self._post_call()
